@@ -84,15 +84,14 @@ def run(repo: Repo, rep: Report, tier: str) -> None:
     ml = repo.cls("MemoryLowerer")
     maps = []
     for m in ml.methods.values():
-        for n in walk_local(m.node):
-            if isinstance(n, ast.Assign) and isinstance(n.value, ast.IfExp) and "set_priority" in norm(n.value.test):
-                maps.append((m, n))
+        for lwc in calls_in(m.node, "latch_write"):
+            if len(lwc.args) >= 5:
+                maps.append((m, lwc))
     rep.floor("C05-R1", "priority -> latch-type mappings in lowering", len(maps), 2)
-    for m, n in maps:
-        ok = norm(n.value) == "MEMORY_TYPE_SR_LATCH if expr.set_priority else MEMORY_TYPE_RS_LATCH"
-        lw = [cc for cc in calls_in(m.node, "latch_write")]
-        passes = bool(lw) and len(lw[0].args) >= 5 and canon(m).text(lw[0].args[4]) == canon(m).text(n.value)
-        rep.check(ok and passes, "C05-R1", f"{m.short}: set priority -> SR latch, reset priority -> RS latch, passed to IR", norm(n.value), m.loc(n))
+    for m, lwc in maps:
+        got = canon(m).text(lwc.args[4])
+        ok = got == "MEMORY_TYPE_SR_LATCH if expr.set_priority else MEMORY_TYPE_RS_LATCH"
+        rep.check(ok, "C05-R1", f"{m.short}: set priority -> SR latch, reset priority -> RS latch, passed to IR", got, m.loc(lwc))
     il = repo.cls("IRLatchWrite")
     st = [n for n in walk_local(il.methods["__init__"].node) if isinstance(n, ast.Assign) and norm(n.targets[0]) == "self.latch_type"]
     rep.check(bool(st) and norm(st[0].value) == "latch_type", "C05-R1", "IRLatchWrite stores latch_type unchanged", norm(st[0]) if st else "", il.loc())
